@@ -69,6 +69,10 @@ class TestTrace(trace.Trace):
     def start(self):
         assert not self.started, "can't start if already started"
         if not self.donothing:
+            # remember the hooks that were installed before the run
+            self._old_trace = sys.gettrace()
+            self._old_threading_trace = getattr(
+                threading, 'gettrace', lambda: None)()
             sys.settrace = settrace
             sys.settrace(self.globaltrace)
             threading.settrace(self.globaltrace)
@@ -78,8 +82,8 @@ class TestTrace(trace.Trace):
         assert self.started, "can't stop if not started"
         if not self.donothing:
             sys.settrace = osettrace
-            sys.settrace(None)
-            threading.settrace(None)
+            sys.settrace(self._old_trace)
+            threading.settrace(self._old_threading_trace)
         self.started = False
 
 
